@@ -130,9 +130,14 @@ PY_ENV = {'pi': math.pi, 'sin': math.sin, 'cos': math.cos, 'tan': math.tan, 'ln'
 def py_value(src, env, textual=False):
     """Value of Python source `src`; formals bound as values, or (textual) spliced in as
     `repr(float)` the way replace_param_indices does."""
+    import re
+    # integer literals are read as floats: Python's exact integer powers (7**12**10) would
+    # take forever; such programs are never handed to the reader either
+    src = re.sub(r'(?<![\w.])(\d+\.?\d*(?:[eE][-+]?\d+)?|\.\d+(?:[eE][-+]?\d+)?)',
+                 lambda m: m.group(0) if any(c in m.group(0) for c in '.eE')
+                 else m.group(0) + '.0', src)
     try:
         if textual:
-            import re
             src = re.sub(r'[A-Za-z_][A-Za-z_0-9]*',
                          lambda m: repr(float(env[m.group(0)]))
                          if m.group(0) in env else m.group(0), src)
